@@ -2,10 +2,91 @@
    exactly the outputs of the abstract machine of model/ProcAbs.v, for every well-formed
    event list, every configuration with capacity >= 1 and every fault script; and the
    processor's per-event output is the concatenation of the three machines' outputs. *)
-From Coq Require Import List ZArith Bool Arith Lia.
+From Coq Require Import List ZArith Bool Arith Lia ZifyBool ZifyNat.
 From TR Require Import model.Ring model.RingSpec model.Processor model.ProcAbs model.ProcSpec proofs.RingProofs.
 Import ListNotations.
 Open Scope Z_scope.
+
+(* ---------- id sequences and the history they give ---------- *)
+Lemma zseq_length : forall k lo, length (zseq lo k) = k.
+Proof. induction k as [|k IH]; intros lo; cbn [zseq length]; [reflexivity|]. rewrite IH. reflexivity. Qed.
+
+Lemma zseq_snoc : forall k lo, zseq lo k ++ [lo + Z.of_nat k] = zseq lo (S k).
+Proof.
+  induction k as [|k IH]; intros lo.
+  - cbn [zseq app]. f_equal. lia.
+  - change (zseq lo (S (S k))) with (lo :: zseq (lo + 1) (S k)).
+    change (zseq lo (S k)) with (lo :: zseq (lo + 1) k).
+    cbn [app]. f_equal.
+    replace (lo + Z.of_nat (S k)) with ((lo + 1) + Z.of_nat k) by lia.
+    apply IH.
+Qed.
+
+Lemma zseq_skipn : forall j k lo, skipn j (zseq lo k) = zseq (lo + Z.of_nat j) (k - j).
+Proof.
+  induction j as [|j IH]; intros k lo.
+  - cbn [skipn]. rewrite Nat.sub_0_r. f_equal. lia.
+  - destruct k as [|k]; [reflexivity|].
+    change (zseq lo (S k)) with (lo :: zseq (lo + 1) k).
+    cbn [skipn]. rewrite IH. f_equal; lia.
+Qed.
+
+Lemma hist_eq : forall c n mark, 1 <= p_size c -> 0 <= mark <= n ->
+  spec_history (Z.to_nat (p_size c)) (mkGhost (zseq 0 (Z.to_nat n)) (Z.to_nat (n - mark))) n
+  = ahistory c mark n.
+Proof.
+  intros c n mark Hsz Hm. unfold spec_history, lastn, ahistory.
+  cbn [committed since_mark]. cbv zeta.
+  assert (E : zseq 0 (Z.to_nat n) ++ [n] = zseq 0 (S (Z.to_nat n))).
+  { rewrite <- zseq_snoc. f_equal. f_equal. lia. }
+  rewrite E, zseq_length, zseq_skipn. f_equal; lia.
+Qed.
+
+(* ---------- the concrete machine computes the abstract one ---------- *)
+
+(* the abstract state carried by a concrete control state, given the two counters *)
+Definition abs (n mark : Z) (m : mstate) : astate :=
+  mkA n mark (m_rec m) (m_fw m) (m_wu m) (m_trig m) (m_faults m).
+
+Ltac proj :=
+  cbn [m_ring m_rec m_fw m_wu m_trig m_faults a_n a_mark a_rec a_fw a_wu a_trig a_faults
+       fst snd negb andb abs].
+
+Ltac step :=
+  match goal with
+  | |- context [pop ?f] => is_var f; destruct (pop f) as [? ?]
+  | |- context [write_pre ?h ?f] => is_var f; destruct (write_pre h f) as [[? ?] ?]
+  | |- context [if ?b then _ else _] => is_var b; destruct b
+  | |- context [if negb ?b then _ else _] => is_var b; destruct b
+  | |- context [if ?x >=? ?y then _ else _] => destruct (x >=? y)
+  | |- context [if ?x <? ?y then _ else _] => destruct (x <? y)
+  end; proj.
+
+Lemma stop_abs : forall n mark m,
+  exists stopped : bool,
+    m_ring (fst (stop_recording m)) =
+      (if stopped then set_as_oldest (m_ring m) else m_ring m) /\
+    astop (abs n mark m) =
+      (abs n (if stopped then n else mark) (fst (stop_recording m)), snd (stop_recording m)).
+Proof.
+  intros n mark [r rc fw wu tg f]. unfold stop_recording, astop. proj.
+  repeat step; first [exists true; split; reflexivity | exists false; split; reflexivity].
+Qed.
+
+Lemma mprocess_abs : forall c m n mark id motion win,
+  get_history (m_ring m) = Some (ahistory c mark id) ->
+  exists stopped : bool,
+    m_ring (fst (mprocess c m id motion win)) =
+      (if stopped then set_as_oldest (move (m_ring m)) else move (m_ring m)) /\
+    aprocess c (abs n mark m) id motion win =
+      (abs (id + 1) (if stopped then id + 1 else mark) (fst (mprocess c m id motion win)),
+       snd (mprocess c m id motion win)).
+Proof.
+  intros c [r rc fw wu tg f] n mark id motion win Hh.
+  cbn [m_ring] in Hh.
+  unfold mprocess, aprocess, stop_recording, astop. proj. rewrite Hh.
+  repeat step; first [exists true; split; reflexivity | exists false; split; reflexivity].
+Qed.
 
 (* simulation relation: same control state; the ring refines
    (committed = ids 0..n-1, since_mark = n - mark) *)
@@ -15,52 +96,296 @@ Definition Sim (c : pcfg) (m : mstate) (a : astate) : Prop :=
   0 <= a_mark a <= a_n a /\
   RInv Z 0 (p_size c) (m_ring m) (mkGhost (zseq 0 (Z.to_nat (a_n a))) (Z.to_nat (a_n a - a_mark a))).
 
+Lemma Sim_abs_eq : forall c m a, Sim c m a -> a = abs (a_n a) (a_mark a) m.
+Proof.
+  intros c m [n mk rc fw wu tg f] H. unfold Sim in H. unfold abs.
+  cbn [a_n a_mark a_rec a_fw a_wu a_trig a_faults] in *.
+  destruct H as (<- & <- & <- & <- & <- & _). reflexivity.
+Qed.
+
+Lemma Sim_of_abs : forall c n mark m,
+  0 <= mark <= n ->
+  RInv Z 0 (p_size c) (m_ring m) (mkGhost (zseq 0 (Z.to_nat n)) (Z.to_nat (n - mark))) ->
+  Sim c m (abs n mark m).
+Proof.
+  intros c n mark m Hm HR. unfold Sim, abs. proj. repeat (split; [reflexivity|]).
+  split; [exact Hm|exact HR].
+Qed.
+
+(* ghost steps on the (ids 0..n-1, n - mark) ghost *)
+Lemma RInv_put : forall sz r g v, RInv Z 0 sz r g -> RInv Z 0 sz (put r v) g.
+Proof. intros sz r g v H. exact (RInv_step Z 0 sz r g (OPut v) H). Qed.
+
+Lemma RInv_move_id : forall sz r n mark,
+  0 <= mark <= n -> current 0 r = n ->
+  RInv Z 0 sz r (mkGhost (zseq 0 (Z.to_nat n)) (Z.to_nat (n - mark))) ->
+  RInv Z 0 sz (move r) (mkGhost (zseq 0 (Z.to_nat (n + 1))) (Z.to_nat (n + 1 - mark))).
+Proof.
+  intros sz r n mark Hm Hc H.
+  pose proof (RInv_step Z 0 sz r _ OMove H) as H'.
+  cbn [rstep gstep committed since_mark] in H'. rewrite Hc in H'.
+  replace (zseq 0 (Z.to_nat (n + 1))) with (zseq 0 (Z.to_nat n) ++ [n]).
+  2:{ replace (Z.to_nat (n + 1)) with (S (Z.to_nat n)) by lia.
+      rewrite <- zseq_snoc. f_equal. f_equal. lia. }
+  replace (Z.to_nat (n + 1 - mark)) with (S (Z.to_nat (n - mark))) by lia.
+  exact H'.
+Qed.
+
+Lemma RInv_mark : forall sz r l k n,
+  RInv Z 0 sz r (mkGhost l k) ->
+  RInv Z 0 sz (set_as_oldest r) (mkGhost l (Z.to_nat (n - n))).
+Proof.
+  intros sz r l k n H.
+  pose proof (RInv_step Z 0 sz r _ OMark H) as H'.
+  cbn [rstep gstep committed since_mark] in H'.
+  replace (Z.to_nat (n - n)) with 0%nat by lia. exact H'.
+Qed.
+
 Theorem Sim_init : forall c fm, 1 <= p_size c -> Sim c (minit c fm) (ainit fm).
-Admitted.
+Proof.
+  intros c fm Hsz. unfold Sim, minit, ainit. proj.
+  repeat (split; [reflexivity|]). split; [lia|].
+  change (Z.to_nat 0) with 0%nat. change (Z.to_nat (0 - 0)) with 0%nat.
+  cbn [zseq]. apply (RInv_init Z 0 (p_size c) 0 Hsz).
+Qed.
+
+Lemma Sim_stop : forall c m a,
+  Sim c m a ->
+  snd (stop_recording m) = snd (astop a) /\ Sim c (fst (stop_recording m)) (fst (astop a)).
+Proof.
+  intros c m a HS. pose proof HS as (_ & _ & _ & _ & _ & Hm & HR).
+  rewrite (Sim_abs_eq c m a HS).
+  set (n := a_n a) in *. set (mark := a_mark a) in *.
+  destruct (stop_abs n mark m) as (stopped & Hring & Heq).
+  rewrite Heq. cbn [fst snd]. split; [reflexivity|].
+  apply Sim_of_abs.
+  - destruct stopped; lia.
+  - rewrite Hring. destruct stopped; [|exact HR].
+    apply RInv_mark with (k := Z.to_nat (n - mark)). exact HR.
+Qed.
 
 (* one step: for the event that carries the next id (or a bad frame / reset / request) *)
 Theorem Sim_step : forall c m a e,
     Sim c m a ->
     match e with EFrame id _ _ => id = a_n a | _ => True end ->
     snd (mstep c m e) = snd (astep c a e) /\ Sim c (fst (mstep c m e)) (fst (astep c a e)).
-Admitted.
+Proof.
+  intros c m a e HS He. destruct e as [id motion win | | |].
+  - (* frame *)
+    pose proof HS as (_ & _ & _ & _ & _ & Hm & HR).
+    pose proof HR as (_ & Hsz & _).
+    pose proof (Sim_abs_eq c m a HS) as Ea.
+    set (n := a_n a) in *. set (mark := a_mark a) in *.
+    clearbody n mark. clear HS. subst a id.
+    cbn [mstep astep].
+    set (m0 := mkM (put (m_ring m) n) (m_rec m) (m_fw m) (m_wu m) (m_trig m) (m_faults m)).
+    change (abs n mark m) with (abs n mark m0).
+    assert (HR0 : RInv Z 0 (p_size c) (m_ring m0)
+                    (mkGhost (zseq 0 (Z.to_nat n)) (Z.to_nat (n - mark)))).
+    { apply RInv_put. exact HR. }
+    assert (Hcur : current 0 (m_ring m0) = n).
+    { exact (RInv_put_current Z 0 _ _ _ n HR). }
+    assert (Hh : get_history (m_ring m0) = Some (ahistory c mark n)).
+    { rewrite (RInv_history Z 0 _ _ _ HR0), Hcur. f_equal. apply hist_eq; assumption. }
+    destruct (mprocess_abs c m0 n mark n motion win Hh) as (stopped & Hring & Heq).
+    rewrite Heq. cbn [fst snd]. split; [reflexivity|].
+    pose proof (RInv_move_id _ _ _ _ Hm Hcur HR0) as HRm.
+    apply Sim_of_abs.
+    + destruct stopped; lia.
+    + rewrite Hring. destruct stopped; [|exact HRm].
+      eapply RInv_mark. exact HRm.
+  - (* bad frame *)
+    cbn [mstep astep]. apply Sim_stop.
+    destruct HS as (H1 & H2 & H3 & H4 & H5 & Hm & HR).
+    unfold Sim. proj. repeat (split; [assumption|]). apply RInv_put. exact HR.
+  - cbn [mstep astep]. apply Sim_stop. exact HS.
+  - cbn [mstep astep fst snd]. split; [reflexivity|exact HS].
+Qed.
+
+Lemma astop_n : forall s, a_n (fst (astop s)) = a_n s.
+Proof.
+  intros s. unfold astop. destruct (a_rec s); cbn [negb fst]; [|reflexivity].
+  destruct (pop (a_faults s)) as [failed f']. reflexivity.
+Qed.
 
 Theorem an_step : forall c a e,
     a_n (fst (astep c a e)) = match e with EFrame id _ _ => id + 1 | _ => a_n a end.
-Admitted.
+Proof.
+  intros c a e. destruct e as [id motion win | | |]; cbn [astep].
+  - unfold aprocess.
+    match goal with |- context [let '(s1, o1) := ?X in _] => destruct X as [s1 o1] end.
+    match goal with |- context [let '(s2, o2) := ?X in _] => destruct X as [s2 o2] end.
+    match goal with |- context [if ?b then astop ?s else _] =>
+      destruct b; [pose proof (astop_n s) as Hn; destruct (astop s) as [s4 o4]|] end.
+    + cbn [fst a_n] in *. exact Hn.
+    + reflexivity.
+  - apply astop_n.
+  - apply astop_n.
+  - reflexivity.
+Qed.
 
 Theorem mrun_arun_gen : forall c evs m a,
     Sim c m a -> wf_ids (a_n a) evs -> mrun c m evs = arun c a evs.
-Admitted.
+Proof.
+  intros c evs. induction evs as [|e t IH]; intros m a HS Hwf; [reflexivity|].
+  cbn [mrun arun].
+  assert (He : match e with EFrame id _ _ => id = a_n a | _ => True end).
+  { destruct e; cbn [wf_ids] in Hwf; [apply Hwf|exact I|exact I|exact I]. }
+  destruct (Sim_step c m a e HS He) as (Ho & HS').
+  pose proof (an_step c a e) as Hn.
+  destruct (mstep c m e) as [m' o]. destruct (astep c a e) as [a' o'].
+  cbn [fst snd] in Ho, HS', Hn. subst o'. f_equal.
+  apply IH; [exact HS'|]. rewrite Hn.
+  destruct e; cbn [wf_ids] in Hwf; try exact Hwf.
+  destruct Hwf as (-> & Hwf). exact Hwf.
+Qed.
 
 Theorem mrun_arun : forall c fm evs,
     1 <= p_size c -> wf_ids 0 evs ->
     mrun c (minit c fm) evs = arun c (ainit fm) evs.
-Admitted.
+Proof.
+  intros c fm evs Hsz Hwf. apply mrun_arun_gen; [apply Sim_init; exact Hsz|exact Hwf].
+Qed.
 
 (* the processor is the per-event concatenation of its three machines *)
 Theorem prun_zip3 : forall c evs m cs t,
     prun c (mkP m cs t) evs = zip3 (mrun c m evs) (crun c cs evs) (trun t evs).
-Admitted.
+Proof.
+  intros c evs. induction evs as [|e evs IH]; intros m cs t; [reflexivity|].
+  cbn [prun mrun crun trun]. unfold pstep. cbn [p_m p_c p_t].
+  destruct (mstep c m e) as [m' om]. destruct (cstep c cs e) as [c' oc].
+  destruct (tstep t e) as [t' ot]. cbn [zip3]. f_equal. apply IH.
+Qed.
 
 Theorem run_lengths : forall c evs m cs t,
     length (mrun c m evs) = length evs /\ length (crun c cs evs) = length evs /\
     length (trun t evs) = length evs.
-Admitted.
+Proof.
+  intros c evs. induction evs as [|e evs IH]; intros m cs t; [repeat split; reflexivity|].
+  cbn [mrun crun trun].
+  destruct (mstep c m e) as [m' om]. destruct (cstep c cs e) as [c' oc].
+  destruct (tstep t e) as [t' ot]. cbn [length].
+  destruct (IH m' c' t') as (H1 & H2 & H3). rewrite H1, H2, H3. repeat split; reflexivity.
+Qed.
 
 Theorem arun_length : forall c evs a, length (arun c a evs) = length evs.
-Admitted.
+Proof.
+  intros c evs. induction evs as [|e evs IH]; intros a; [reflexivity|].
+  cbn [arun]. destruct (astep c a e) as [a' o]. cbn [length]. rewrite IH. reflexivity.
+Qed.
+
+(* outputs of the abstract machine, for any predicate that accepts the motion machine's
+   non-Panic outputs *)
+Section Outs.
+  Variable P : out -> bool.
+  Hypothesis P_call : forall x b, P (Call SMotion x b) = true.
+  Hypothesis P_motion : P LMotion = true.
+  Hypothesis P_started : P LStarted = true.
+  Hypothesis P_ended : P LEnded = true.
+  Hypothesis P_win : forall b, P (WinQ b) = true.
+
+  Lemma write_pre_outs : forall ids f, forallb P (snd (write_pre ids f)) = true.
+  Proof.
+    induction ids as [|id rest IH]; intros f; [reflexivity|].
+    destruct rest as [|id2 rest]; [reflexivity|].
+    change (write_pre (id :: id2 :: rest) f) with
+      (let (failed, f') := pop f in
+       if failed then (false, f', [Call SMotion (Write id) true])
+       else let '(ok, f'', o) := write_pre (id2 :: rest) f' in
+            (ok, f'', Call SMotion (Write id) false :: o)).
+    destruct (pop f) as [failed f']. destruct failed.
+    - cbn [snd forallb]. rewrite P_call. reflexivity.
+    - specialize (IH f'). destruct (write_pre (id2 :: rest) f') as [[ok f''] o].
+      cbn [snd forallb] in *. rewrite P_call, IH. reflexivity.
+  Qed.
+
+  Lemma astop_outs : forall s, forallb P (snd (astop s)) = true.
+  Proof.
+    intros s. unfold astop. destruct (a_rec s); cbn [negb]; [|reflexivity].
+    destruct (pop (a_faults s)) as [failed f']. cbn [snd forallb].
+    rewrite P_ended, P_call. reflexivity.
+  Qed.
+
+  Ltac ostep P :=
+    first
+      [ match goal with
+        | |- context [write_pre ?h ?f] =>
+          is_var f; generalize (write_pre_outs h f);
+          destruct (write_pre h f) as [[? ?] ?]; cbn [snd]; intros ?Hw
+        end
+      | step ].
+
+  Lemma aprocess_outs : forall c a id motion win,
+    forallb P (snd (aprocess c a id motion win)) = true.
+  Proof.
+    intros c [n mk rc fw wu tg f] id motion win.
+    unfold aprocess, astop. proj.
+    repeat ostep P;
+      cbn [snd app forallb];
+      rewrite ?forallb_app, ?P_call, ?P_motion, ?P_started, ?P_ended, ?P_win;
+      cbn [forallb andb];
+      rewrite ?P_call, ?P_motion, ?P_started, ?P_ended, ?P_win; cbn [andb];
+      repeat match goal with H : forallb P _ = true |- _ => rewrite H; clear H end;
+      reflexivity.
+  Qed.
+
+  Lemma astep_outs : forall c a e, forallb P (snd (astep c a e)) = true.
+  Proof.
+    intros c a e. destruct e as [id motion win | | |]; cbn [astep].
+    - apply aprocess_outs.
+    - apply astop_outs.
+    - apply astop_outs.
+    - reflexivity.
+  Qed.
+End Outs.
 
 (* each machine only produces outputs of its own kind *)
 Theorem astep_outs_motion : forall c a e, forallb is_motion_out (snd (astep c a e)) = true.
-Admitted.
+Proof. intros c a e. apply astep_outs; intros; reflexivity. Qed.
+
 Theorem cstep_outs_const : forall c s e, forallb is_const_out (snd (cstep c s e)) = true.
-Admitted.
+Proof.
+  intros c [n f] e. destruct e as [id motion win | | |]; cbn [cstep]; try reflexivity.
+  - unfold cprocess. cbn [c_frames c_faults].
+    destruct (p_const c); cbn [negb]; [|reflexivity].
+    destruct (n =? 0).
+    + destruct (pop f) as [failed f1]. destruct failed; cbn [negb]; [reflexivity|].
+      destruct (pop f1) as [wfailed f2]. destruct (n + 1 >? p_max c).
+      * destruct (pop f2) as [sfailed f3]. reflexivity.
+      * reflexivity.
+    + cbn [negb]. destruct (pop f) as [wfailed f2]. destruct (n + 1 >? p_max c).
+      * destruct (pop f2) as [sfailed f3]. reflexivity.
+      * reflexivity.
+  - cbn [c_faults]. destruct (p_const c); cbn [negb]; [|reflexivity].
+    destruct (pop f) as [failed f']. reflexivity.
+Qed.
+
 Theorem tstep_outs_test : forall s e, forallb is_test_out (snd (tstep s e)) = true.
-Admitted.
+Proof.
+  intros [st rc n f] e. destruct e as [id motion win | | |]; cbn [tstep]; try reflexivity.
+  unfold tprocess. cbn [t_start t_rec t_frames t_faults].
+  destruct st.
+  - destruct rc.
+    + cbn [t_start t_rec t_frames t_faults negb].
+      destruct (pop f) as [wfailed f2]. destruct (n + 1 >? SNAP_LAST).
+      * destruct (pop f2) as [sfailed f3]. reflexivity.
+      * reflexivity.
+    + destruct (pop f) as [failed f']. destruct failed; [reflexivity|].
+      cbn [t_start t_rec t_frames t_faults negb].
+      destruct (pop f') as [wfailed f2]. destruct (n + 1 >? SNAP_LAST).
+      * destruct (pop f2) as [sfailed f3]. reflexivity.
+      * reflexivity.
+  - cbn [t_start t_rec t_frames t_faults]. destruct rc; cbn [negb]; [|reflexivity].
+    destruct (pop f) as [wfailed f2]. destruct (n + 1 >? SNAP_LAST).
+    + destruct (pop f2) as [sfailed f3]. reflexivity.
+    + reflexivity.
+Qed.
 
 (* the abstract machine never panics (hence, by mrun_arun, neither does the concrete one:
    GetHistory's slice expression is always in range) *)
 Theorem astep_no_panic : forall c a e,
     forallb (fun x => match x with Panic => false | _ => true end) (snd (astep c a e)) = true.
-Admitted.
+Proof. intros c a e. apply astep_outs; intros; reflexivity. Qed.
+
+Print Assumptions mrun_arun.
+Print Assumptions prun_zip3.
